@@ -14,6 +14,9 @@ CONSTANTS
   MaxTx = 2
   MaxOps = 100
   Record = FALSE
+  ExtBond = 1
+  ExtDeleg = 14
+  PoolInit = 1
   Impl = "code"
 VIEW ViewNoHist
 INVARIANT Conservation
